@@ -48,7 +48,7 @@ def check_remove_leak(ck, w, rnd, after_run=False):
     s = leak_scenarios(rnd, 1, 9000)[0]
     wn = simnet.build(w, s)
     n_before = len(list(wn.controls()))
-    if after_run:
+    if after_run in ("reset", "continue"):
         # history: run with the leaks (some still active at the end), then remove them, and either reset and run again or
         # CONTINUE the paused run (after_run == "continue"): the removed leak must not discharge in the continuation
         for nd in s["nodes"]:
@@ -59,13 +59,18 @@ def check_remove_leak(ck, w, rnd, after_run=False):
             wn.options.time.duration = (s["Dur"] // s["H"] // 2) * s["H"]
         simnet.run_wntr(w, wn, HW_approx=s["hw"])
         wn.options.time.duration = s["Dur"]
+    if after_run == "dict":
+        # history: the model travels through its dictionary form (controls come back under generic names) before the leaks
+        # are removed
+        wn = w.network.from_dict(wn.to_dict())
     for nd in s["nodes"]:
         if nd.get("leak", {}).get("on"):
             wn.get_node(nd["name"]).remove_leak(wn)
             nd["leak"]["on"] = False
-    if after_run and after_run != "continue":
+    if after_run == "reset":
         wn.reset_initial_values()
-    leftover = [name for name, c in wn.controls() if "leak" in name.lower()]
+    leftover = [name for name, c in wn.controls()
+                if "leak" in name.lower() or any(a.target()[1] == "leak_status" for a in c.actions())]
     if leftover:
         ck.violation("C08.leak_removed", "leak controls remain after remove_leak", {"scn": s, "controls": leftover})
     res, _ = simnet.run_wntr(w, wn, HW_approx=s["hw"])
@@ -111,8 +116,8 @@ def main(tier, replay):
                             return "leak demand of %s x 1.01" % nd["name"]
             return None
         hyd.selftest(ck, "C08", good, props, mutate)
-        for k in range(6 if tier == "quick" else 60):
-            check_remove_leak(ck, common.import_wntr(), rnd, after_run=(False, "reset", "continue")[k % 3])
+        for k in range(8 if tier == "quick" else 80):
+            check_remove_leak(ck, common.import_wntr(), rnd, after_run=(False, "reset", "continue", "dict")[k % 4])
         c = ck.cov["counters"]
         for k in ("leak_rows_inactive", "leak_rows_positive_pressure", "windows_off_grid", "leaks_on_J"):
             if not c.get(k):
